@@ -107,6 +107,7 @@ pub open spec fn re_ok(e: RE) -> bool
     decreases e,
 {
     &&& e.nullable == lang_k(e.expr, eps())
+    &&& cp_wf(*e.deriv_class)
     &&& match e.expr {
         BaseRegLan::Empty => true,
         BaseRegLan::Epsilon => true,
@@ -130,5 +131,114 @@ pub open spec fn kids_ok(k: BaseRegLan) -> bool {
         BaseRegLan::Complement(a) => re_ok(*a),
         BaseRegLan::Union(l) => forall|i: int| 0 <= i < l@.len() ==> re_ok(*#[trigger] l@[i]),
         BaseRegLan::Inter(l) => forall|i: int| 0 <= i < l@.len() ==> re_ok(*#[trigger] l@[i]),
+    }
+}
+
+// ---- every language is a set of words over the alphabet ----
+pub proof fn lemma_word_ok_concat(u: Seq<u32>, v: Seq<u32>)
+    requires word_ok(u), word_ok(v),
+    ensures word_ok(u + v),
+{
+    assert forall|i: int| 0 <= i < (u + v).len() implies #[trigger] (u + v)[i] <= MAX_CHAR by {
+        if i < u.len() { assert((u + v)[i] == u[i]); } else { assert((u + v)[i] == v[i - u.len()]); }
+    }
+}
+
+pub proof fn lemma_split(w: Seq<u32>, i: int)
+    requires 0 <= i <= w.len(),
+    ensures w.subrange(0, i) + w.subrange(i, w.len() as int) == w,
+{
+    assert(w.subrange(0, i) + w.subrange(i, w.len() as int) =~= w);
+}
+
+pub proof fn lemma_pow_word_ok(a: BaseRegLan, n: nat, w: Seq<u32>)
+    requires pow(a, n, w), forall|u: Seq<u32>| #[trigger] lang_k(a, u) ==> word_ok(u),
+    ensures word_ok(w),
+    decreases n,
+{
+    if n > 0 {
+        let i = choose|i: int| #![trigger wit(i)] 0 <= i <= w.len() && wit(i) && lang_k(a, w.subrange(0, i)) && pow(a, (n - 1) as nat, w.subrange(i, w.len() as int));
+        lemma_pow_word_ok(a, (n - 1) as nat, w.subrange(i, w.len() as int));
+        lemma_word_ok_concat(w.subrange(0, i), w.subrange(i, w.len() as int));
+        lemma_split(w, i);
+    }
+}
+
+pub proof fn lemma_lang_word_ok(k: BaseRegLan, w: Seq<u32>)
+    requires lang_k(k, w),
+    ensures word_ok(w),
+    decreases k,
+{
+    match k {
+        BaseRegLan::Concat(a, b) => {
+            let i = choose|i: int| #![trigger wit(i)] 0 <= i <= w.len() && wit(i) && lang_k(a.expr, w.subrange(0, i)) && lang_k(b.expr, w.subrange(i, w.len() as int));
+            lemma_lang_word_ok(a.expr, w.subrange(0, i));
+            lemma_lang_word_ok(b.expr, w.subrange(i, w.len() as int));
+            lemma_word_ok_concat(w.subrange(0, i), w.subrange(i, w.len() as int));
+            lemma_split(w, i);
+        },
+        BaseRegLan::Loop(a, r) => {
+            lemma_loop_lang(a, r, w);
+            let n = choose|n: int| #![trigger wit(n)] 0 <= n && wit(n) && lr_has(r, n) && pow(a.expr, n as nat, w);
+            assert forall|u: Seq<u32>| #[trigger] lang_k(a.expr, u) implies word_ok(u) by { lemma_lang_word_ok(a.expr, u); }
+            lemma_pow_word_ok(a.expr, n as nat, w);
+        },
+        BaseRegLan::Union(l) => {
+            let i = choose|i: int| #![trigger wit(i)] 0 <= i < l@.len() && wit(i) && lang_k(l@[i].expr, w);
+            lemma_lang_word_ok(l@[i].expr, w);
+        },
+        _ => {},
+    }
+}
+
+// complement is an involution on languages
+pub proof fn lemma_complement_lang(a: RegLan, w: Seq<u32>)
+    ensures lang_k(BaseRegLan::Complement(a), w) == (word_ok(w) && !lang_k(a.expr, w)),
+        (word_ok(w) && !lang_k(BaseRegLan::Complement(a), w)) == lang_k(a.expr, w),
+{
+    if lang_k(a.expr, w) { lemma_lang_word_ok(a.expr, w); }
+}
+
+// ---- Sigma* and Sigma+ ----
+pub open spec fn is_sigma(a: BaseRegLan) -> bool {
+    a matches BaseRegLan::Range(c) && c.start == 0 && c.end == MAX_CHAR
+}
+
+pub proof fn lemma_sigma_pow(a: BaseRegLan, n: nat, w: Seq<u32>)
+    requires is_sigma(a),
+    ensures pow(a, n, w) == (word_ok(w) && w.len() == n),
+    decreases n,
+{
+    if n > 0 {
+        if pow(a, n, w) {
+            let i = choose|i: int| #![trigger wit(i)] 0 <= i <= w.len() && wit(i) && lang_k(a, w.subrange(0, i)) && pow(a, (n - 1) as nat, w.subrange(i, w.len() as int));
+            lemma_sigma_pow(a, (n - 1) as nat, w.subrange(i, w.len() as int));
+            assert(i == 1);
+            lemma_word_ok_concat(w.subrange(0, i), w.subrange(i, w.len() as int));
+            lemma_split(w, i);
+        }
+        if word_ok(w) && w.len() == n {
+            let u = w.subrange(0, 1);
+            let v = w.subrange(1, w.len() as int);
+            assert(u[0] == w[0]);
+            assert forall|j: int| 0 <= j < v.len() implies #[trigger] v[j] <= MAX_CHAR by { assert(v[j] == w[j + 1]); }
+            lemma_sigma_pow(a, (n - 1) as nat, v);
+            assert(wit(1) && lang_k(a, u) && pow(a, (n - 1) as nat, v));
+        }
+    }
+}
+
+pub proof fn lemma_sigma_loop(sigma: RegLan, r: LoopRange, w: Seq<u32>)
+    requires is_sigma(sigma.expr),
+    ensures lang_k(BaseRegLan::Loop(sigma, r), w) == (word_ok(w) && lr_has(r, w.len() as int)),
+{
+    lemma_loop_lang(sigma, r, w);
+    if word_ok(w) && lr_has(r, w.len() as int) {
+        lemma_sigma_pow(sigma.expr, w.len(), w);
+        assert(wit(w.len() as int));
+    }
+    if exists|n: int| #![trigger wit(n)] 0 <= n && wit(n) && lr_has(r, n) && pow(sigma.expr, n as nat, w) {
+        let n = choose|n: int| #![trigger wit(n)] 0 <= n && wit(n) && lr_has(r, n) && pow(sigma.expr, n as nat, w);
+        lemma_sigma_pow(sigma.expr, n as nat, w);
     }
 }
